@@ -130,7 +130,7 @@ var c09Failed atomic.Bool
 
 func c09Patience() time.Duration {
 	if c09Failed.Load() {
-		return 4 * time.Second
+		return 10 * time.Second
 	}
 	return 30 * time.Second
 }
@@ -147,6 +147,7 @@ type c09Case struct {
 	Bad       string      // "", zero, unregistered, wrongdir
 	BadPos    int         // inbound segments before the offending one
 	BadSeg    rawpeer.Seg
+	BadEp     int   // unregistered-late: the endpoint that is unregistered before BadSeg is written
 	WriteCuts []int // cycled sizes of the harness's writes of the inbound wire
 	Split     []int // tapConn write splitting on the muxer side
 	Diffusion muxer.DiffusionMode
@@ -188,6 +189,9 @@ func (c *c09Case) describe() map[string]any {
 		if c.Bad != "" {
 			m["bad"] = c.Bad
 			m["bad_pos"] = c.BadPos
+			if c.Bad == "unregistered-late" {
+				m["unregistered_endpoint"] = c.Eps[c.BadEp].String()
+			}
 			m["bad_seg"] = fmt.Sprintf("id=%d resp=%v len=%d", c.BadSeg.ProtoID, c.BadSeg.Response, len(c.BadSeg.Payload))
 		}
 	}
@@ -283,6 +287,10 @@ func genC09Case(rt *rapid.T, thorough bool) *c09Case {
 			if len(wrongDirCandidates) > 0 {
 				kinds = append(kinds, "wrongdir", "wrongdir")
 			}
+			if c.Family == "recv" {
+				// a registered endpoint is unregistered mid-stream, then addressed again
+				kinds = append(kinds, "unregistered-late", "unregistered-late")
+			}
 			c.Bad = rapid.SampledFrom(kinds).Draw(rt, "badKind")
 			ts := rapid.Uint32().Draw(rt, "badTs")
 			switch c.Bad {
@@ -304,6 +312,11 @@ func genC09Case(rt *rapid.T, thorough bool) *c09Case {
 					}
 				}
 				c.BadSeg = rawpeer.Seg{Timestamp: ts, ProtoID: id, Response: rapid.Bool().Draw(rt, "badDir"),
+					Payload: fill(uint64(ts), rapid.IntRange(1, 300).Draw(rt, "badLen"))}
+			case "unregistered-late":
+				c.BadEp = rapid.IntRange(0, k-1).Draw(rt, "badEp")
+				e := c.Eps[c.BadEp]
+				c.BadSeg = rawpeer.Seg{Timestamp: ts, ProtoID: e.ID, Response: e.inDir(),
 					Payload: fill(uint64(ts), rapid.IntRange(1, 300).Draw(rt, "badLen"))}
 			case "wrongdir":
 				e := wrongDirCandidates[rapid.IntRange(0, len(wrongDirCandidates)-1).Draw(rt, "badEp")]
@@ -457,6 +470,7 @@ func runC09Case(c *c09Case) (fails []c09Fail, classes []string, headerCut bool) 
 		}
 	}
 
+	reachedBad, resume := make(chan struct{}), make(chan struct{})
 	// ---- inbound: harness writes the framed interleaving, receivers collect ----
 	got := make([][]c09Got, k)
 	recvDone := make(chan int, k)
@@ -498,12 +512,29 @@ func runC09Case(c *c09Case) (fails []c09Fail, classes []string, headerCut bool) 
 				recvDone <- i
 			}(i)
 		}
+		pauseAt := -1
+		if c.Bad == "unregistered-late" {
+			pauseAt = len(wire)
+			for n, st := range segStarts {
+				if n == c.BadPos {
+					pauseAt = st
+				}
+			}
+		}
 		wg.Add(1)
 		go func() {
 			defer wg.Done()
 			ci := 0
+			written := 0
 			for len(wire) > 0 {
+				if written == pauseAt {
+					close(reachedBad)
+					<-resume
+				}
 				n := len(wire)
+				if pauseAt > written && n > pauseAt-written {
+					n = pauseAt - written
+				}
 				if len(c.WriteCuts) > 0 {
 					if v := c.WriteCuts[ci%len(c.WriteCuts)]; v < n {
 						n = v
@@ -514,6 +545,7 @@ func runC09Case(c *c09Case) (fails []c09Fail, classes []string, headerCut bool) 
 					return // the muxer closed the connection (expected after an offending segment)
 				}
 				wire = wire[n:]
+				written += n
 			}
 		}()
 	}
@@ -563,6 +595,20 @@ func runC09Case(c *c09Case) (fails []c09Fail, classes []string, headerCut bool) 
 	}
 
 	// ---- inbound verdict ----
+	if c.Bad == "unregistered-late" {
+		// everything before the offending segment is written: wait until it has been
+		// delivered, unregister the endpoint, then let the writer continue
+		select {
+		case <-reachedBad:
+			if !waitCond(c09Wait, nil, progress, func() bool { return delivered.Load() >= int64(c.BadPos) }) {
+				fail("C09:recv:stalled", fmt.Sprintf("only %d of the %d valid segments before the unregistration were delivered", delivered.Load(), c.BadPos), map[string]any{"goroutines": goroutineDump()})
+			}
+			m.UnregisterProtocol(c.Eps[c.BadEp].ID, c.Eps[c.BadEp].Role)
+		case <-stall:
+			fail("C09:recv:stalled", "the muxer stopped consuming a valid inbound stream", map[string]any{"goroutines": goroutineDump()})
+		}
+		close(resume)
+	}
 	if c.Family != "send" {
 		if c.Bad == "" {
 			// wait until the writer is done, then close the far end: the muxer
